@@ -724,7 +724,6 @@ func isInitFn(fn *ssa.Function) bool {
 	return fn.Name() == "init" || (len(fn.Name()) > 5 && fn.Name()[:5] == "init#")
 }
 
-
 // eqFact normalises a branch fact on an (in)equality test: it returns the two
 // operands and whether the fact says they are equal.
 func eqFact(f EdgeFact) (x, y ssa.Value, equal bool, ok bool) {
@@ -915,4 +914,106 @@ func staticCond(v ssa.Value) (bool, bool) {
 		}
 	}
 	return false, false
+}
+
+// cmpBounds: the interval of integer value v implied by comparison cond having truth value val, when cond
+// compares v (either side, through conversions of neither) with a constant; hasLo/hasHi report which
+// ends are bounded.  `v > 0` taken, `v <= 0` not taken, `v >= 1` taken, `0 < v` taken ... all give lo=1.
+func cmpBounds(cond ssa.Value, val bool, v ssa.Value) (lo, hi int64, hasLo, hasHi bool) {
+	bo, ok := cond.(*ssa.BinOp)
+	if !ok {
+		return
+	}
+	op := bo.Op
+	var k int64
+	switch {
+	case bo.X == v:
+		kk, isC := constInt(bo.Y)
+		if !isC {
+			return
+		}
+		k = kk
+	case bo.Y == v:
+		kk, isC := constInt(bo.X)
+		if !isC {
+			return
+		}
+		k = kk
+		op = flipCmp(op)
+	default:
+		return
+	}
+	if !val {
+		op = negateCmp(op)
+	}
+	switch op {
+	case token.GTR:
+		return k + 1, 0, true, false
+	case token.GEQ:
+		return k, 0, true, false
+	case token.LSS:
+		return 0, k - 1, false, true
+	case token.LEQ:
+		return 0, k, false, true
+	case token.EQL:
+		return k, k, true, true
+	}
+	return
+}
+
+// factPositive: the edge fact implies v >= 1.
+func factPositive(cond ssa.Value, val bool, v ssa.Value) bool {
+	lo, _, hasLo, _ := cmpBounds(cond, val, v)
+	return hasLo && lo >= 1
+}
+
+// factNonPositive: the edge fact implies v <= 0.
+func factNonPositive(cond ssa.Value, val bool, v ssa.Value) bool {
+	_, hi, _, hasHi := cmpBounds(cond, val, v)
+	return hasHi && hi <= 0
+}
+
+// stripWidening removes conversions from an unsigned integer type to an unsigned integer type that is
+// at least as wide (value preserving: the same bits, zero-extended).
+func stripWidening(v ssa.Value) ssa.Value {
+	for {
+		cv, ok := v.(*ssa.Convert)
+		if !ok {
+			return v
+		}
+		from, ok1 := cv.X.Type().Underlying().(*types.Basic)
+		to, ok2 := cv.Type().Underlying().(*types.Basic)
+		if !ok1 || !ok2 || from.Info()&types.IsUnsigned == 0 || to.Info()&types.IsUnsigned == 0 {
+			return v
+		}
+		size := func(b *types.Basic) int {
+			switch b.Kind() {
+			case types.Uint8:
+				return 8
+			case types.Uint16:
+				return 16
+			case types.Uint32:
+				return 32
+			case types.Uint64, types.Uint, types.Uintptr:
+				return 64
+			}
+			return 0
+		}
+		// uint is 32 bits on some targets: widening to it is only certain from at most 32 bits
+		fs, ts := size(from), size(to)
+		if from.Kind() == types.Uint || from.Kind() == types.Uintptr {
+			if to.Kind() != types.Uint64 && to.Kind() != from.Kind() {
+				return v
+			}
+		}
+		if to.Kind() == types.Uint || to.Kind() == types.Uintptr {
+			ts = 32
+		}
+		if fs == 0 || ts == 0 || ts < fs {
+			if !(from.Kind() == to.Kind()) {
+				return v
+			}
+		}
+		v = cv.X
+	}
 }
